@@ -153,6 +153,7 @@ static InstResult run_fmt(const std::vector<CrashInfo> &cr, size_t L, int shard,
 			fmt_case(raw, f.size(), 42);
 			fmt_case(raw, f.size(), -7, (const char *)"s");
 			fmt_case(raw, f.size(), 'c', 123456789012345678L);
+			fmt_case(raw, f.size(), (char)-1, (char)-128);
 		});
 	};
 	for_all_strings(alpha, 2, [&](const std::string &pre) {
